@@ -123,6 +123,8 @@ func (m *muxProvider) Start() {
 				var session *yamux.Session
 				session, err = m.sessionFn(conn)
 				if err != nil {
+					// No session owns the connection, so nobody else will close it
+					_ = conn.Close()
 					if m.lifetime.Err() != nil {
 						return
 					}
@@ -134,6 +136,9 @@ func (m *muxProvider) Start() {
 				_, err = session.Ping()
 				if err != nil {
 					if m.lifetime.Err() != nil {
+						// Shutting down: the session was never handed to the manager, so close it and its connection here
+						_ = session.Close()
+						_ = conn.Close()
 						return
 					} else if errors.Is(err, yamux.ErrConnectionWriteTimeout) {
 						m.logger.Info("Timed out establishing mux", tag.Error(err),
